@@ -246,6 +246,11 @@ fn check_mode(
     // locals
     let mut slot_changed = false;
     for ((f, l), name) in &na.locals {
+        // with synthetic names on, walrus documents that empty local names
+        // (wat2wasm's placeholder) are ignored and named synthetically
+        if synthetic && name.is_empty() {
+            continue;
+        }
         let g = match iso.funcs.fwd.get(f) {
             Some(g) => *g,
             None => continue,
@@ -398,6 +403,7 @@ pub fn check(_ctx: &Ctx, input: &Input) -> CaseResult {
         check_mode(&p.bytes, &b, gc, synthetic, &p.origin, &mut out)?;
     }
     export_replacement_mode(&p, &mut out)?;
+    import_replacement_mode(&p, &mut out)?;
     if out.nontrivial {
         out.sample = Some(json!({"origin": p.origin, "bytes": p.bytes.len(), "labels": out.labels}));
     }
@@ -497,4 +503,90 @@ fn run(ctx: &Ctx) {
         max_len: ctx.tier.pick(1500, 3000),
     }];
     standard_run(ctx, check, &plans, true);
+}
+
+/// After `replace_imported_func` the function keeps its id, hence its name;
+/// every other function keeps its own. Identity again by tags: the replaced
+/// function is the only local function of the output without a tag.
+fn import_replacement_mode(p: &Prepared, out: &mut CaseOut) -> Result<(), Failure> {
+    let da = match decode(&p.bytes) {
+        Ok(d) => d,
+        Err(_) => return Ok(()),
+    };
+    let n_imp = da.imp_funcs.len() as u32;
+    if n_imp == 0 {
+        return Ok(());
+    }
+    let in_tags: Vec<Option<i64>> = (0..da.n_funcs()).map(|i| da.func_tag(i)).collect();
+    let mut seen = std::collections::HashSet::new();
+    if !in_tags.iter().flatten().all(|t| seen.insert(*t)) || in_tags[n_imp as usize..].iter().any(|t| t.is_none()) {
+        return Ok(());
+    }
+    let na = match decode_names(&p.bytes) {
+        Ok(n) if !n.funcs.is_empty() => n,
+        _ => return Ok(()),
+    };
+    // prefer an import that has a name
+    let target = (0..n_imp).find(|i| na.funcs.contains_key(i)).unwrap_or(0);
+    let slot = std::sync::Arc::new(std::sync::Mutex::new(None));
+    let s2 = slot.clone();
+    let mut cfg = wal::Cfg::plain().to_config();
+    cfg.on_parse(move |_m, ids| {
+        *s2.lock().unwrap() = Some(ids.get_func(target)?);
+        Ok(())
+    });
+    let mut m = match wal::parse(&p.bytes, &cfg) {
+        Ok(Ok(m)) => m,
+        _ => return Ok(()),
+    };
+    let fid = match *slot.lock().unwrap() {
+        Some(f) => f,
+        None => return Ok(()),
+    };
+    let r = guard("replace_imported_func", || {
+        m.replace_imported_func(fid, |(b, _)| {
+            b.unreachable();
+        })
+        .is_ok()
+    });
+    if !matches!(r, Ok(true)) {
+        return Ok(()); // C18's business
+    }
+    let edited = match wal::emit(&mut m) {
+        Ok(b) => b,
+        Err(_) => return Ok(()),
+    };
+    let (db, nb) = match (decode(&edited), decode_names(&edited)) {
+        (Ok(d), Ok(n)) => (d, n),
+        _ => return Ok(()),
+    };
+    let nib = db.imp_funcs.len() as u32;
+    let untagged: Vec<u32> = (nib..db.n_funcs()).filter(|j| db.func_tag(*j).is_none()).collect();
+    if untagged.len() == 1 {
+        let j = untagged[0];
+        if nb.funcs.get(&j) != na.funcs.get(&target) {
+            return Err(Failure::new(
+                "function-name-lost-or-changed:after-import-replacement",
+                format!(
+                    "imported function {} is named {:?}; after replace_imported_func it is emitted at index {} named {:?} [{}]",
+                    target, na.funcs.get(&target), j, nb.funcs.get(&j), p.origin
+                ),
+            ));
+        }
+    }
+    for (i, name) in &na.funcs {
+        let t = match in_tags.get(*i as usize).copied().flatten() {
+            Some(t) => t,
+            None => continue,
+        };
+        let js: Vec<u32> = (0..db.n_funcs()).filter(|j| db.func_tag(*j) == Some(t)).collect();
+        if js.len() == 1 && nb.funcs.get(&js[0]) != Some(name) {
+            return Err(Failure::new(
+                "function-name-lost-or-changed:after-import-replacement",
+                format!("input function {} is named {:?}; after replace_imported_func on import {} it is emitted at index {} named {:?} [{}]", i, name, target, js[0], nb.funcs.get(&js[0]), p.origin),
+            ));
+        }
+    }
+    out.label("mode:after-import-replacement");
+    Ok(())
 }
